@@ -413,9 +413,9 @@ class CheckpointSchedule(ABC):
 
         @functools.wraps(cls_iter)
         def _iterator(self):
-            if not hasattr(self, "iter"):
-                self.iter = cls_iter(self)
-            return self.iter
+            if not hasattr(self, "_iter"):
+                self._iter = cls_iter(self)
+            return self._iter
 
         cls._iterator = _iterator
 
